@@ -3,8 +3,10 @@
 Steps of a run (verdicts always come from TLC):
   1. design level : TLC model-checks spec/MxFormula.tla (the capture pipeline of formula.py
      transcribed over abstract physical lines + Recreate / Rename / SetDoc / SetRef) on the
-     layouts of the tier, with the C20 predicates as invariants; the known findings are
-     counterexamples of the design as it is (MC_MxFormula_kf.cfg must fail);
+     layouts of the tier, with the C20 predicates as invariants.  Five defects found with this
+     machinery were repaired in modelx; MxFormulaBase!Fixed names them, their situations stay
+     classified by the KF predicates (tripwires: Inv_NoKnownFinding at design level, the
+     "KF:C20.*" labels on the code), MC_MxFormula_kf.cfg lists the KF labels the model reaches;
   2. spec -> code : TLC prints every layout of the tier once with the history to run on it
      (MBT idiom); harness/formula_render.py renders the layout to Python text (text forms) or
      to a module file that is imported (function / lambda objects, decorators, mx.defcells);
@@ -78,8 +80,13 @@ ASSUMPTIONS = [
     "written' come from the TLA+ operator ValsOf and are cross-checked on every case against "
     "the text executed by Python alone at its indentation (MACH.OracleMismatch)",
     "formula.source is mapped back to abstract lines by comparing each stripped physical line "
-    "with the rendered lines of the layout (every rendered line is unique); a line that is not "
-    "one of them is reported as id -1",
+    "with the rendered lines of the layout (every rendered line is unique); the lines of the "
+    "def's docstring statement (found with ast) that are not lines of the layout count as the "
+    "new docstring; a lambda is read at the extent of its ast node and a continuation backslash "
+    "is not part of it; any other line is reported as id -1",
+    "the algorithm layer models modelx with the five repaired defects KF1..KF5 "
+    "(MxFormulaBase!Fixed); a KF label on the real code is a regression and is reported as a "
+    "violation",
 ]
 
 _TMP = None
